@@ -267,6 +267,19 @@ func (fx *FnCtx) execInstr(st *State, pc *Term, ins ssa.Instruction) {
 			env.oldEnv = fx.entryEnv(fx.entry)
 			env.pc = pc
 			env.lookup = fx.siteLookup(st, t)
+			// the results of the call are available as ret (single result) or ret0, ret1, ...
+			if tup, ok := t.Type().(*types.Tuple); ok {
+				off := 0
+				for k := 0; k < tup.Len(); k++ {
+					n := len(tc.Layout(tup.At(k).Type()).Leaves)
+					if off+n <= len(v.L) {
+						env.vars[fmt.Sprintf("ret%d", k)] = SV{V: Value{T: tup.At(k).Type(), L: v.L[off : off+n]}}
+					}
+					off += n
+				}
+			} else if t.Type() != nil {
+				env.vars["ret"] = SV{V: v}
+			}
 			fx.runGhost(site, st, env)
 		}
 	case *ssa.Extract:
